@@ -95,6 +95,19 @@ def run_property(prop, tier):
     if not ok:
         return 2
     write_failures(out, failures)
+    if prop == "C20":
+        # determinism: the generator library in three separate processes
+        for tag in ("a", "b", "c"):
+            code, outp = run([GEN, "tokens", "--seed", str(seed), "--tier", tier, "--out", os.path.join(out, "tokens_%s.json" % tag)], capture=True)
+            if code != 0:
+                sys.stderr.write(outp[-3000:])
+                return 2
+    if prop == "C11":
+        code, outp = run([GEN, "illformed", "--seed", str(seed), "--tier", tier, "--out", os.path.join(out, "c11_gen.json")], capture=True)
+        if code != 0:
+            sys.stderr.write(outp[-3000:])
+            return 2
+        log(outp.strip().splitlines()[-1])
     driver.clear_replays(prop)
     limit = 1500 if tier == "quick" else 6 * 3600
     code, _ = run([runner_exe(out), prop, "--tier", tier, "--seed", str(seed)], timeout=limit)
